@@ -7,6 +7,10 @@
      - binary operands left to right; call / record constructor / array literal arguments right
        to left, then the function expression;  && and || short-circuit;
      - int is 32-bit two's complement with wrap-around, / and % truncate;
+     - == and != also compare a reference (record, array, function value) with nil: the result
+       tells whether the reference is nil; two non-nil references are not comparable;
+     - a maximal run of adjacent function items of a block is declared together: every function
+       of the run sees all of them (and itself), whatever their order;
      - a fault (zero divisor, index out of bounds, nil record) unwinds to the first matching
        catch clause of the innermost active function that has one; an exception raised inside a
        clause is offered to the later clauses of the same function only.
@@ -107,6 +111,53 @@ Definition exn_eqb (a b : exn) : bool :=
   | _, _ => false
   end.
 
+(* == / != with nil.  `nil` evaluates to a cell holding CRec None.  A reference is a record,
+   array or function value; Some true = it is nil.  (front/typecheck.c expr_eq_check_type admits
+   a reference operand only against the literal nil; the emitter picks OP_EQ_*_NIL /
+   OP_EQ_NIL_* / OP_EQ_NIL, whose handlers compare the reference with nil_ptr.) *)
+Definition ref_is_nil (v : cellval) : option bool :=
+  match v with
+  | CArr None | CRec None => Some true
+  | CArr (Some _) | CRec (Some _) | CFun _ _ => Some false
+  | CInt _ | CBool _ => None
+  end.
+
+(* the value of `v1 == v2` / `v1 != v2` on two references at least one of which is nil *)
+Definition nil_cmp (op : binop) (o1 o2 : option cellval) : option bool :=
+  match o1, o2 with
+  | Some v1, Some v2 =>
+    match ref_is_nil v1, ref_is_nil v2 with
+    | Some n1, Some n2 =>
+      if n1 || n2 then
+        match op with
+        | Eq => Some (n1 && n2)
+        | Ne => Some (negb (n1 && n2))
+        | _ => None
+        end
+      else None
+    | _, _ => None
+    end
+  | _, _ => None
+  end.
+
+(* runs of adjacent function items (front/typecheck.c seq_list_check_type declares them
+   together; the emitter allocates their slots first and then stores the closures) *)
+Fixpoint run_funcs (l : list item) : list fdef :=
+  match l with IFunc fd :: t => fd :: run_funcs t | _ => [] end.
+Fixpoint run_rest (l : list item) : list item :=
+  match l with IFunc _ :: t => run_rest t | _ => l end.
+
+(* the functions of a run get the cells c, c+1, ... in order; later names shadow earlier ones
+   (the typechecker rejects two functions of the same name in one block anyway) *)
+Fixpoint func_env (fds : list fdef) (c : nat) (e : env) : env :=
+  match fds with
+  | [] => e
+  | fd :: t => func_env t (S c) ((fd_name fd, c) :: e)
+  end.
+
+Definition add_cells (st : state) (vs : list cellval) : state :=
+  {| cells := cells st ++ vs; arrs := arrs st; recs := recs st; out := out st |}.
+
 Section Eval.
 Variable genv : env.     (* top-level functions: name -> cell holding CFun fd [] *)
 
@@ -192,7 +243,12 @@ Fixpoint eval (fuel : nat) (e : env) (st : state) (x : expr) {struct fuel} : res
             match op, get_bool st2 c1, get_bool st2 c2 with
             | Eq, Some b1, Some b2 => fresh st2 (CBool (Bool.eqb b1 b2))
             | Ne, Some b1, Some b2 => fresh st2 (CBool (negb (Bool.eqb b1 b2)))
-            | _, _, _ => (RStuck, st2)
+            | _, _, _ =>
+              (* == and != of a reference and nil *)
+              match nil_cmp op (get_cell st2 c1) (get_cell st2 c2) with
+              | Some b => fresh st2 (CBool b)
+              | None => (RStuck, st2)
+              end
             end
           end
         | r => r end
@@ -335,9 +391,13 @@ with eval_items (fuel : nat) (e : env) (st : state) (items : list item) (last : 
       | (ROk c, st1) => eval_items k ((x, c) :: e) st1 t (Some c)
       | r => r end
     | IFunc fd :: t =>
-      let (c, st1) := alloc st (CInt 0) in
-      let e' := (fd_name fd, c) :: e in
-      eval_items k e' (set_cell st1 c (CFun fd e')) t (Some c)
+      (* the maximal run of adjacent function items starting here: one new cell per function,
+         each holding the closure over the common environment e' that binds all of them *)
+      let fds := fd :: run_funcs t in
+      let c0 := length (cells st) in
+      let e' := func_env fds c0 e in
+      eval_items k e' (add_cells st (map (fun f => CFun f e') fds)) (run_rest t)
+                 (Some (length (run_funcs t) + c0)%nat)
     | IExpr a :: t =>
       match eval k e st a with
       | (ROk c, st1) => eval_items k e st1 t (Some c)
